@@ -33,26 +33,22 @@ theorem view_get_spec (s : Sheet) (h : Good s) (p u : Cps) : (view s).get p = so
 
 /-- Outside `Good`: one prefix declared for two URIs. Both rules are effective; the code keeps the EARLIER one
 (`reversed` + dict comprehension, `util.py:821-835`) although the docstring says "the latest set" and CSS says a
-later declaration of a prefix wins. Only reachable through the findings C15-prefix-setter-collision and
-C15-insert-before-same-prefix (checked on this sample, not a theorem). -/
+later declaration of a prefix wins. Only reachable through the finding C15-prefix-setter-collision
+(checked on this sample, not a theorem). -/
 example : view [.ns (mkNs [0x70] [0x31]), .ns (mkNs [0x70] [0x32])] = [([0x70], [0x31])] := by decide
 
 /-! ## T15.2 every used URI stays declared -/
 
-/-- T15.2 (one step): every operation that is outside the known findings (`OpOk`) and whose clean-up did not
-raise half-way keeps the sheet consistent — whether the call succeeds or is rejected.
-Full statement (FAILS on the current code, see `insert_before_same_prefix_breaks` and
-`prefix_setter_collision_breaks`): `Good s → Good (step s op).1` for every `op`. -/
-theorem good_step_partial (s : Sheet) (op : Op) (h : Good s) (hok : OpOk s op)
-    (hclean : (step s op).2 = .err .noModificationAllowedErr → (step s op).1 = s) : Good (step s op).1 := by
+/-- T15.2 (one step): every operation that is outside the known findings (`OpOk`) keeps the sheet consistent —
+whether the call succeeds or is rejected.
+Full statement (FAILS on the current code, see `prefix_setter_collision_breaks`, `foreign_style_rule_breaks`,
+`parse_time_prefix_without_rule_breaks`, `star_uri_breaks`): `Good s → Good (step s op).1` for every `op`. -/
+theorem good_step_partial (s : Sheet) (op : Op) (h : Good s) (hok : OpOk s op) : Good (step s op).1 := by
   cases op with
   | parse init src =>
     obtain ⟨rfl, hsrc⟩ := hok
-    simp only [step] at hclean ⊢
-    by_cases hc : (parseSheet [] src).2 = true
-    · simp only [hc, if_true] at hclean
-      rw [hclean trivial]; exact h
-    · apply good_parseSheet src _ (by simpa using hc)
+    simp only [step]
+    have hsrc' : ∀ r ∈ src, SrcOk r := by
       intro r hr
       have := hsrc r hr
       cases r with
@@ -60,44 +56,30 @@ theorem good_step_partial (s : Sheet) (op : Op) (h : Good s) (hok : OpOk s op)
       | style x => trivial
       | media x => trivial
       | other k => cases k <;> first | exact this | trivial
+    exact good_parseSheet src hsrc' (parse_no_raise src hsrc')
   | insNs p u idx io =>
-    simp only [step] at hclean ⊢
+    simp only [step]
     split
     · exact h
     · split
       · exact h
       · cases hr : (insertNs s (mkNs p u) idx io true).2 with
         | ok r => exact good_insertNs h (by simpa [mkNs, OpOk] using hok) hr
-        | err e =>
-          rcases insertNs_err hr with h1 | h1
-          · subst h1
-            rename_i h2 h3
-            simp only [h2, h3, if_false] at hclean
-            rw [hclean hr]; exact h
-          · rw [h1]; exact h
+        | err e => rw [insertNs_err hr]; exact h
   | insNsText p u c0 c1 c2 idx io =>
-    simp only [step] at hclean ⊢
+    simp only [step]
     split
     · exact h
     · split
       · exact h
       · cases hr : (insertNs s (mkNsText p u c0 c1 c2) idx io true).2 with
         | ok r => exact good_insertNs h (by simpa [mkNsText, OpOk] using hok) hr
-        | err e =>
-          rcases insertNs_err hr with h1 | h1
-          · subst h1
-            rename_i h2 h3
-            simp only [h2, h3, if_false] at hclean
-            rw [hclean hr]; exact h
-          · rw [h1]; exact h
+        | err e => rw [insertNs_err hr]; exact h
   | setNs p u =>
-    simp only [step] at hclean ⊢
+    simp only [step]
     cases hr : (setNs s p u).2 with
     | ok r => exact good_setNs h (by simpa [OpOk] using hok) hr
-    | err e =>
-      rcases setNs_err hr with h1 | h1
-      · rw [h1.1] at hr; rw [hclean hr]; exact h
-      · rw [h1]; exact h
+    | err e => rw [setNs_err hr]; exact h
   | delNs p => exact good_delNs h
   | delRule i =>
     simp only [step]
@@ -148,11 +130,11 @@ theorem good_step_partial (s : Sheet) (op : Op) (h : Good s) (hok : OpOk s op)
 
 /-- T15.2 (parsing): a sheet parsed from a text without @variables rules (finding
 C15-namespace-after-variables) is consistent: one @namespace rule per prefix and URI is left, every URI a kept
-selector refers to is declared — for every such text, in or out of order, with declared and undeclared prefixes.
-(`(parseSheet [] src).2 = false`: the final clean-up did not raise; it never did in the correspondence runs.) -/
-theorem parse_good_partial (src : List SrcRule) (hsrc : ∀ r ∈ src, SrcOk r) (hc : (parseSheet [] src).2 = false) :
-    Good (parseSheet [] src).1 :=
-  good_parseSheet src hsrc hc
+selector refers to is declared, and the final clean-up does not raise — for every such text, in or out of order,
+with declared and undeclared prefixes. -/
+theorem parse_good_partial (src : List SrcRule) (hsrc : ∀ r ∈ src, SrcOk r) :
+    (parseSheet [] src).2 = false ∧ Good (parseSheet [] src).1 :=
+  ⟨parse_no_raise src hsrc, good_parseSheet src hsrc (parse_no_raise src hsrc)⟩
 
 /-- T15.2 (histories): `usedURIs ⊆ declaredURIs` — with one rule per prefix and per URI — holds after every
 history whose steps are outside the known findings, for all sheets and all such histories -/
@@ -161,7 +143,7 @@ theorem good_run_partial (ops : List Op) : ∀ (s : Sheet), Good s → AllOk s o
   | nil => intro s h _; exact h
   | cons op t ih =>
     intro s h hall
-    exact ih _ (good_step_partial s op h hall.1 hall.2.1) hall.2.2
+    exact ih _ (good_step_partial s op h hall.1) hall.2
 
 /-- the guards are satisfiable: the empty sheet is consistent and a typical history is admissible
 (declare `p`, use it, re-bind its URI to `q`, try to delete it) -/
@@ -214,13 +196,10 @@ theorem delete_used_prefix_rejected (s : Sheet) (h : Good s) (p u : Cps) (hp : (
     subst this
     simp [step, delNs, hf, deleteRule, h.blocked hu]
 
-/-- a rejected namespace operation leaves the sheet as it was — except when the exception comes out of the
-clean-up inside `insertRule` (finding C15-insert-before-same-prefix), which is what the hypothesis excludes.
-Full statement (FAILS, see `insert_before_same_prefix_breaks`): without `hclean`. -/
-theorem rejected_unchanged_partial (s : Sheet) (op : Op) (e : Err) (hp : ∀ i src, op ≠ .parse i src)
-    (h : (step s op).2 = .err e)
-    (hclean : e = .noModificationAllowedErr → ∀ p u, op ≠ .setNs p u ∧ (∀ a b, op ≠ .insNs p u a b) ∧
-      (∀ a b c a' b', op ≠ .insNsText p u a b c a' b')) : (step s op).1 = s := by
+/-- a rejected operation leaves the sheet as it was: mapping, rules, selectors — for every sheet and every
+operation of the model except `parse` (which replaces the sheet) -/
+theorem rejected_unchanged (s : Sheet) (op : Op) (e : Err) (hp : ∀ i src, op ≠ .parse i src)
+    (h : (step s op).2 = .err e) : (step s op).1 = s := by
   cases op with
   | parse init src => exact absurd rfl (hp init src)
   | insNs p u idx io =>
@@ -231,9 +210,7 @@ theorem rejected_unchanged_partial (s : Sheet) (op : Op) (e : Err) (hp : ∀ i s
       · rfl
       · rename_i h2 h3
         simp only [h2, h3, if_false] at h
-        rcases insertNs_err h with h1 | h1
-        · exact absurd rfl ((hclean h1 p u).2.1 idx io)
-        · exact h1
+        exact insertNs_err h
   | insNsText p u c0 c1 c2 idx io =>
     simp only [step] at h ⊢
     split
@@ -242,14 +219,10 @@ theorem rejected_unchanged_partial (s : Sheet) (op : Op) (e : Err) (hp : ∀ i s
       · rfl
       · rename_i h2 h3
         simp only [h2, h3, if_false] at h
-        rcases insertNs_err h with h1 | h1
-        · exact absurd rfl ((hclean h1 p u).2.2 c0 c1 c2 idx io)
-        · exact h1
+        exact insertNs_err h
   | setNs p u =>
     simp only [step] at h ⊢
-    rcases setNs_err h with h1 | h1
-    · exact absurd rfl (hclean h1.1 p u).1
-    · exact h1
+    exact setNs_err h
   | delNs p =>
     simp only [step, delNs] at h ⊢
     cases hf : findLastNs p s with
@@ -580,18 +553,12 @@ theorem good_rule_text (s : Sheet) (h : AllGoodNs s) (n : NsRule) (hn : Rule.ns 
 
 /-! ## the findings of known/C15.json on the model (each is a closed computation, checked by the kernel) -/
 
-/-- C15-insert-before-same-prefix (as it is after fix 3ec898a, which takes the new rule out again): in
-`@namespace p "u1"; @namespace q "u2"; p|a {…} q|b {…}` the call `add(CSSNamespaceRule(prefix='q',
-namespaceURI='u1'))` is rejected — but the clean-up had already deleted `@namespace p "u1"` (it was no longer
-the last declaration of `u1`) before it failed on the new rule, so `u1`, still used by `p|a`, is left without
-declaration (`|a` is written) -/
-theorem insert_before_same_prefix_breaks :
-    Good W.two ∧
-    (step W.two (.insNs W.q W.u1 none true)).2 = .err .noModificationAllowedErr ∧
-    nsPairs (step W.two (.insNs W.q W.u1 none true)).1 = [(W.q, W.u2)] ∧
-    usedUris (step W.two (.insNs W.q W.u1 none true)).1 = [W.u1, W.u2] ∧
-    serItem (view (step W.two (.insNs W.q W.u1 none true)).1) (.q .typeSel (.uri W.u1) W.a) = bar ++ W.a := by
-  refine ⟨⟨by decide, by decide, by decide, by decide⟩, by decide, by decide, by decide, by decide⟩
+/-- C15-insert-before-same-prefix (FIXED by 3ec898a + 2293ec0): the two histories that used to corrupt the
+sheet are rejected and leave it exactly as it was -/
+example :
+    step W.base (.insNs W.p W.u2 (some 0) false) = (W.base, .err .noModificationAllowedErr) ∧
+    step W.two (.insNs W.q W.u1 none true) = (W.two, .err .noModificationAllowedErr) := by
+  decide
 
 /-- C15-prefix-setter-collision: `rule.prefix = 'q'` on the rule of `u1` while `q` is bound to `u2` -/
 theorem prefix_setter_collision_breaks :
@@ -644,13 +611,13 @@ example : Good W.base ∧ Good W.two :=
 example : AllOk W.base [.setNs W.q W.u1, .delNs W.q] ∧
     view (run W.base [.setNs W.q W.u1, .delNs W.q]) = [(W.q, W.u1)] ∧
     (step (run W.base [.setNs W.q W.u1]) (.delNs W.q)).2 = .err .noModificationAllowedErr := by
-  refine ⟨⟨by show W.u1 ≠ star; decide, by decide, trivial, by decide, trivial⟩, by decide, by decide⟩
+  refine ⟨⟨by show W.u1 ≠ star; decide, trivial, trivial⟩, by decide, by decide⟩
 
 
 /-- … and a history that starts with parsing is admissible as well -/
 example : AllOk [] [.parse [] [.ns W.p W.u1 false false false, .style [[.q .typeSel (.named W.p) W.a]]],
     .setNs W.q W.u1] := by
-  refine ⟨⟨rfl, ?_⟩, by decide, by show W.u1 ≠ star; decide, by decide, trivial⟩
+  refine ⟨⟨rfl, ?_⟩, by show W.u1 ≠ star; decide, trivial⟩
   intro r hr
   simp only [List.mem_cons, List.not_mem_nil, or_false] at hr
   rcases hr with rfl | rfl
